@@ -172,14 +172,14 @@ Definition port_schema : schema :=
         [("port", SNode (Some TInteger) [] None (Some 1%Z) (Some 65535%Z) [] true None)] true None.
 
 Definition ex_sub : chart :=
-  Chart "sub" "1.0.0" [("port", VNum 80)] (Some port_schema) [] None ["templates/cm.yaml"] false.
-Definition ex_top (crds : bool) : chart :=
+  Chart "sub" "1.0.0" [("port", VNum 80)] (Some port_schema) [] None ["templates/cm.yaml"] [].
+Definition ex_top (crds : list string) : chart :=
   Chart "top" "1.0.0" [] None [ex_sub] (Some [mkDep "sub" "*" "" [] "web" true []]) ["templates/cm.yaml"] crds.
 Definition ex_vals : vmap := [("web", VMap [("port", VNum 0)])].
 Definition ex_flags : flags := mkFlags false false false false true false false.
 
 Lemma gate_example :
-  match process_dependencies (fun _ _ => true) (ex_top false) ex_vals with
+  match process_dependencies (fun _ _ => true) (ex_top []) ex_vals with
   | Ok c' => to_render_values c' ex_vals false = RVSchemaErr ["web"]
              /\ to_render_values c' [] false
                 = RVOk [("web", VMap [("global", VMap []); ("port", VNum 80)])]
@@ -189,11 +189,11 @@ Lemma gate_example :
 Proof. vm_compute. repeat split; reflexivity. Qed.
 
 Lemma crd_caveat :
-  install_trace (fun _ _ => true) ex_flags (ex_top true) ex_vals
+  install_trace (fun _ _ => true) ex_flags (ex_top ["crds/crd.yaml"]) ex_vals
   = ([KIsReachable; SRead; KCreateCRDs; KGetCapabilities], FailSchema ["web"]).
 Proof. vm_compute. reflexivity. Qed.
 
 Lemma install_ok_example :
-  install_trace (fun _ _ => true) ex_flags (ex_top false) []
+  install_trace (fun _ _ => true) ex_flags (ex_top []) []
   = ([KIsReachable; SRead; KGetCapabilities; KBuild; KBuild; KCreateNamespace; SCreate; KWait; SUpdate], Done).
 Proof. vm_compute. reflexivity. Qed.
